@@ -57,11 +57,14 @@ def coq_str(s):
     return '"' + s.replace('"', '""') + '"'
 
 
-def gname(m):
-    return 'g_' + m.lstrip('_')
+def gname(m, prefix='g_'):
+    return prefix + m.lstrip('_')
 
 
 class Fn:
+    objmode = False
+    prefix = 'g_'
+
     def __init__(self, mod, cls, name, known, crc_cid):
         self.mod, self.cls, self.name, self.known, self.crc_cid = mod, cls, name, known, crc_cid
         self.fn = method_ast(cls, name)
@@ -173,6 +176,8 @@ class Fn:
             err(e, f'name {e.id} not supported')
         if isinstance(e, ast.Attribute):
             d = dotted(e)
+            if self.objmode and isinstance(e.value, ast.Name) and e.value.id == 'self':
+                return f'(py_getattr ({self.fld("self")} l) {coq_str(e.attr)})'
             if d == 'self.max_retries':
                 return '(p_max_retries w)'
             if d == 'self.retry_delay_in_ms':
@@ -191,7 +196,21 @@ class Fn:
             if e.attr in ('CID', 'cls', 'id', 'frames_rx'):
                 return f'(py_attr {self.ex(e.value)} {coq_str(e.attr)})'
             err(e, f'attribute .{e.attr} not supported')
+        if isinstance(e, ast.IfExp):
+            return f'(if {self.tst(e.test)} then {self.ex(e.body)} else {self.ex(e.orelse)})'
+        if isinstance(e, ast.Subscript):
+            sl = e.slice
+            if isinstance(sl, ast.Slice) and sl.step is None:
+                if sl.lower is None and sl.upper is not None:
+                    return f'(py_slice_to {self.ex(e.value)} {self.ex(sl.upper)})'
+                if sl.upper is None and sl.lower is not None:
+                    return f'(py_slice_from {self.ex(e.value)} {self.ex(sl.lower)})'
+            if isinstance(sl, ast.Constant) and isinstance(sl.value, int) and not isinstance(sl.value, bool) and sl.value >= 0:
+                return f'(py_index {self.ex(e.value)} {sl.value}%nat)'
+            err(e, 'subscript form not supported')
         if isinstance(e, ast.BinOp):
+            if isinstance(e.op, ast.BitAnd):
+                return f'(py_and {self.ex(e.left)} {self.ex(e.right)})'
             if isinstance(e.op, ast.Add):
                 return f'(py_add {self.ex(e.left)} {self.ex(e.right)})'
             if isinstance(e.op, ast.Sub):
@@ -212,6 +231,8 @@ class Fn:
                 err(e, 'keyword arguments not supported')
             if f == 'time.time' and not e.args:
                 return '(p_time w)'
+            if f == 'len' and len(e.args) == 1:
+                return f'(py_len {self.ex(e.args[0])})'
             if f == 'UbxParser' and len(e.args) == 1 and getattr(self.mod, 'UbxParser', None) is not None \
                     and self.mod.UbxParser.__module__ == 'ubxlib.parser_ubx':
                 return f'(py_new_ubx_parser {self.ex(e.args[0])})'
@@ -527,6 +548,163 @@ def emit_scan_v(path):
     L += ['', 'Section G.', 'Context {E : Type} (B : backend E) (sk : list N).', 'Notation fres := (@fres E).', '']
     L.append(f.emit())
     L += ['', 'End G.']
+    text = '\n'.join(L) + '\n'
+    with open(path, 'w') as fh:
+        fh.write(text)
+    return text
+
+
+# --------------------------------------------------------------------------- methods of plain objects (cfgkeys.py)
+OBJ_PRIMS = {
+    'CfgKeyData._build_header': ('py_build_header', 3),
+    'CfgKeyData._bits_from_key': ('py_bits_from_key', 1),
+    'CfgKeyData._group_from_key': ('py_group_from_key', 1),
+    'CfgKeyData._item_from_key': ('py_item_from_key', 1),
+    'CfgKeyData._bytes_for_size': ('py_bytes_for_size', 1),
+    'UbxKeyId.sign': ('py_key_sign sk', 1),
+}
+
+
+class ObjFn(Fn):
+    """A method of a plain object: `self` is a value (PObj) held in a local; every translated method returns the pair
+    (return value, self) so that attribute assignments made by a callee reach the caller."""
+    objmode = True
+    prefix = 'gc_'
+
+    def __init__(self, mod, cls, name, known):
+        super().__init__(mod, cls, name, known, (0, 0))
+        self.params = ['self'] + self.params
+        self.locals = ['self'] + [x for x in self.locals if x != 'self'] + ['aug__tmp']
+        self.defined.add('self')
+
+    def _collect(self, body):
+        # as Fn._collect, but augmented assignment to a local is allowed
+        forbidden = (ast.AnnAssign, ast.NamedExpr, ast.With, ast.Global, ast.Nonlocal, ast.Lambda, ast.FunctionDef, ast.ClassDef,
+                     ast.ListComp, ast.GeneratorExp, ast.DictComp, ast.SetComp, ast.Delete, ast.Import, ast.ImportFrom, ast.Yield,
+                     ast.YieldFrom, ast.Await, ast.Starred, ast.AsyncFor, ast.AsyncWith, ast.AsyncFunctionDef, ast.While, ast.For)
+
+        def walk(node):
+            if isinstance(node, ast.stmt) and is_noop(node):
+                return
+            if isinstance(node, forbidden):
+                err(node, f'{self.name}: {type(node).__name__} not supported')
+            if isinstance(node, ast.Assign):
+                for t in node.targets:
+                    if isinstance(t, ast.Name) and t.id not in self.locals:
+                        self.locals.append(t.id)
+            for ch in ast.iter_child_nodes(node):
+                walk(ch)
+        for st in body:
+            walk(st)
+
+    def call(self, c):
+        if not isinstance(c, ast.Call):
+            return None
+        f = dotted(c.func)
+        if f is None or c.keywords:
+            return None
+        if f in OBJ_PRIMS:
+            prim, n = OBJ_PRIMS[f]
+            root = f.split('.')[0]
+            real = getattr(self.mod, root, None)
+            if real is None or real.__module__ != 'ubxlib.cfgkeys':
+                err(c, f'{f}: not the library\'s {root}')
+            if len(c.args) != n:
+                err(c, f'{f}: expected {n} argument(s)')
+            return f'(res_call ({prim} ' + ' '.join(self.ex(a) for a in c.args) + ') w)'
+        if f in ('struct.pack', 'struct.unpack') and len(c.args) == 2 and isinstance(c.args[0], ast.Constant) and isinstance(c.args[0].value, str):
+            import struct as _struct
+            if getattr(self.mod, 'struct', None) is not _struct:
+                err(c, 'struct is not the standard module')
+            fn = 'py_struct_pack' if f == 'struct.pack' else 'py_struct_unpack'
+            return f'(res_call ({fn} {coq_str(c.args[0].value)} {self.ex(c.args[1])}) w)'
+        parts = f.split('.')
+        if len(parts) == 2 and parts[0] == 'self' and parts[1] in self.known:
+            callee = self.known[parts[1]]
+            if len(c.args) != len(callee.params) - 1:
+                err(c, f'{f}: wrong number of arguments')
+            vals = [f'({self.fld("self")} l)'] + [self.ex(a) for a in c.args]
+            return f'({gname(parts[1], self.prefix)} fuel ' + ' '.join(vals) + ' w)'
+        return None
+
+    def is_method_call(self, c):
+        f = dotted(c.func) if isinstance(c, ast.Call) else None
+        return bool(f) and f.split('.')[0] == 'self' and len(f.split('.')) == 2 and f.split('.')[1] in self.known
+
+    def self_setter(self, attr):
+        return f'(fun l v => {self.setter("self")} l (py_setattr ({self.fld("self")} l) {coq_str(attr)} v))'
+
+    def stmt(self, st):
+        if isinstance(st, ast.Return):
+            if st.value is None:
+                return f'(s_return (fun l w => PTuple [PNone; {self.fld("self")} l]))'
+            if self.call(st.value) is not None:
+                err(st, 'return of a call is not supported in a method of a plain object')
+            return f'(s_return (fun l w => PTuple [{self.ex(st.value)}; {self.fld("self")} l]))'
+        if isinstance(st, ast.Assign) and len(st.targets) == 1:
+            tgt = st.targets[0]
+            call = self.call(st.value)
+            is_attr = isinstance(tgt, ast.Attribute) and isinstance(tgt.value, ast.Name) and tgt.value.id == 'self'
+            if is_attr or isinstance(tgt, ast.Name):
+                setter = self.self_setter(tgt.attr) if is_attr else self.setter(tgt.id)
+                if call is None:
+                    t = f'(s_assign {setter} {self.lam(self.ex(st.value))})'
+                elif self.is_method_call(st.value):
+                    t = f'(s_call_assign2 {setter} {self.setter("self")} {self.lam(call)})'
+                else:
+                    t = f'(s_call_assign {setter} {self.lam(call)})'
+                if not is_attr:
+                    self.defined.add(tgt.id)
+                return t
+            err(st, 'assignment target not supported')
+        if isinstance(st, ast.AugAssign) and isinstance(st.target, ast.Name) and isinstance(st.op, ast.Add):
+            v = st.target.id
+            if v not in self.defined:
+                err(st, f'local {v} may be read before it is assigned')
+            call = self.call(st.value)
+            if call is None:
+                return f'(s_assign {self.setter(v)} {self.lam(f"py_add ({self.fld(v)} l) {self.ex(st.value)}")})'
+            first = (f'(s_call_assign2 {self.setter("aug__tmp")} {self.setter("self")} {self.lam(call)})' if self.is_method_call(st.value)
+                     else f'(s_call_assign {self.setter("aug__tmp")} {self.lam(call)})')
+            return f'(s_seq {first}\n (s_assign {self.setter(v)} (fun l w => py_add ({self.fld(v)} l) ({self.fld("aug__tmp")} l))))'
+        if isinstance(st, ast.Expr) and isinstance(st.value, ast.Call) and self.is_method_call(st.value):
+            return f'(s_call_assign2 (fun l _ => l) {self.setter("self")} {self.lam(self.call(st.value))})'
+        return super().stmt(st)
+
+    def emit(self):
+        body = self.block(self.fn.body)
+        params = ' '.join(f'(a_{p} : pyval)' for p in self.params)
+        init = ' '.join([f'a_{p}' for p in self.params] + ['PNone'] * (len(self.locals) - len(self.params)))
+        return (f'Definition {gname(self.name, self.prefix)} (fuel : nat) {params} (w : world E) : fres :=\n'
+                f'  run_body ((s_seq {body}\n  (s_return (fun l w => PTuple [PNone; {self.fld("self")} l])))\n'
+                f'  (mkL_{self.short} {init}) w).')
+
+
+CFG_METHODS = ['_pack_keyid', '_pack_value', 'pack', '_unpack_value', 'unpack']
+
+
+def emit_cfgobj_v(path):
+    """CfgKeyData.pack / unpack and their helpers (ubxlib/cfgkeys.py) -> gen/CfgKernels.v"""
+    import ubxlib.cfgkeys as mod
+    cls = mod.CfgKeyData
+    known = {}
+    fns = []
+    for m in CFG_METHODS:
+        f = ObjFn(mod, cls, m, dict(known))
+        f.short = 'c' + f.short
+        fns.append(f)
+        known[m] = f
+    L = ['(* GENERATED on every run by py/vlib/translate_req.py from ubxlib/cfgkeys.py in /repo. Do not edit. *)',
+         'From Coq Require Import String.',
+         'From Ubx Require Import Fields Base Checksum Frame ParserUbx ParserNmea CfgKeys Request PySem.',
+         'Open Scope N_scope.', '']
+    for f in fns:
+        L += f.record()
+    L += ['', 'Section G.', 'Context {E : Type} (B : backend E) (sk : list N).', 'Notation fres := (@fres E).', '']
+    for f in fns:
+        L.append(f.emit())
+        L.append('')
+    L.append('End G.')
     text = '\n'.join(L) + '\n'
     with open(path, 'w') as fh:
         fh.write(text)
